@@ -512,7 +512,12 @@ def months_inc(start_date, months, eomonth=False):
         y, m, _ = date_from_int(result)
         return result + max_days_in_month(m, y) - 1
     else:
-        return date(y, m + months, d)
+        result = date(y, m + months, 1)
+        if result in ERROR_CODES:
+            return result
+        y, m, _ = date_from_int(result)
+        # a day past the end of the target month is clamped to its last day
+        return result + min(d, max_days_in_month(m, y)) - 1
 
 
 @time_value_wrapper
